@@ -100,7 +100,9 @@ def run(cfg, tier, seed, replay=None):
     # shown sound in Proofs/ScopeProofs.v); the rest is decided by the differential tiers only
     fancy_m = [i for i in infos if i.get("model") and i["model"].get("new", "").startswith("fancy")]
     notes["vm_compiled_patterns_inside_end_to_end_theorem"] = {
-        "inside": sum(1 for i in fancy_m if i["model"].get("scope") == "1"), "of": len(fancy_m)}
+        "inside_stage1_deterministic_delegates": sum(1 for i in fancy_m if i["model"].get("scope") == "1"),
+        "inside_stage3_every_program": sum(1 for i in fancy_m if i["model"].get("scope3") == "1"),
+        "of": len(fancy_m)}
     # ---- T2
     if "t2" in tiers:
         bad = [i for i in infos if i["t2_ok"] is False]
